@@ -11,6 +11,7 @@ import (
 	"time"
 
 	"github.com/tychoish/fun"
+	"github.com/tychoish/fun/ers"
 	"github.com/tychoish/fun/srv"
 
 	"verif/kit"
@@ -45,6 +46,7 @@ type c10Case struct {
 	Callers  int    `json:"concurrent_callers"`
 	Procs    int    `json:"gomaxprocs"`
 	Hook     string `json:"hook,omitempty"`
+	Shape    int    `json:"error_value_shape,omitempty"` // see c10Shape
 	Observer bool   `json:"cancelled_worker_observer,omitempty"`
 }
 
@@ -61,6 +63,22 @@ type c10Log struct {
 }
 
 func (l *c10Log) add(dst *[]int64) { l.mu.Lock(); *dst = append(*dst, kit.Stamp()); l.mu.Unlock() }
+
+// c10Shape: the value a failing phase hands back. 0: the error itself; 1: it
+// wrapped by fmt.Errorf(%w); 2: the cause taken out of an annotated error
+// with errors.Unwrap (an interior node of the library's own aggregate); 3: a
+// Join of it with another error. errors.Is finds e in all of them.
+func c10Shape(shape int, e error) error {
+	switch shape {
+	case 1:
+		return fmt.Errorf("phase: %w", e)
+	case 2:
+		return errors.Unwrap(ers.Wrap(e, "annotated"))
+	case 3:
+		return ers.Join(e, errors.New("and another"))
+	}
+	return e
+}
 
 func c10Outcome(kind int, e error) error {
 	switch kind {
@@ -226,6 +244,7 @@ func c10Run(r *kit.Run, idx int64, c c10Case, rng *rand.Rand) {
 	r.Current(idx, fmt.Sprintf("%+v", c))
 	lg := &c10Log{errRun: errors.New("run failed"), errShut: errors.New("shutdown failed"), errClean: errors.New("cleanup failed")}
 	errEH := errors.New("error handler failed")
+	c.Shape = rng.IntN(6) % 4 // 0 twice as often
 	blocks := c.End != "run-returns"
 	slowCleanup := []int{0, 0, 20, 200}[rng.IntN(4)]
 	s := &srv.Service{Name: "c10"}
@@ -238,14 +257,14 @@ func c10Run(r *kit.Run, idx int64, c c10Case, rng *rand.Rand) {
 				kit.Yields(rng.IntN(3))
 			}
 			lg.add(&lg.runEnd)
-			return c10Outcome(c.Run, lg.errRun)
+			return c10Outcome(c.Run, c10Shape(c.Shape, lg.errRun))
 		}
 	}
 	if c.Shutdown != phAbsent {
 		s.Shutdown = func() error {
 			lg.add(&lg.shutStart)
 			defer lg.add(&lg.shutEnd)
-			return c10Outcome(c.Shutdown, lg.errShut)
+			return c10Outcome(c.Shutdown, c10Shape(c.Shape, lg.errShut))
 		}
 	}
 	if c.Cleanup != phAbsent {
@@ -253,7 +272,7 @@ func c10Run(r *kit.Run, idx int64, c c10Case, rng *rand.Rand) {
 			lg.add(&lg.cleanStart)
 			defer lg.add(&lg.cleanEnd)
 			kit.Yields(slowCleanup) // a late Wait caller may arrive while Cleanup is still running
-			return c10Outcome(c.Cleanup, lg.errClean)
+			return c10Outcome(c.Cleanup, c10Shape(c.Shape, lg.errClean))
 		}
 	}
 	if c.EH != phAbsent {
